@@ -55,6 +55,7 @@ struct Stats {
     long_trailing: [u64; 2],
     long_by_reader: [u64; 4],
     long_partial_marker: u64,
+    tail_grid: u64,
 }
 
 fn run_case(t: &mut Trace, st: &mut Stats, case: u64, stream: &Stream, start: u32, reader: u64, origin: &str) {
@@ -206,7 +207,7 @@ fn main() {
     let mut t = Trace::create(&a.str("--out", "trace.ndjson"));
     let mut st = Stats { cases: 0, shapes: [0; 64], garb_before: 0, garb_between: 0, garb_after: 0, trailing_short: 0, max_payload: 0, empty_payload: 0, msgs: 0,
         serial_cases: 0, storage_cases: 0, long_leading: [0; 2], long_between: [0; 2], long_before_last: [0; 2], long_trailing: [0; 2], long_by_reader: [0; 4],
-        long_partial_marker: 0 };
+        long_partial_marker: 0, tail_grid: 0 };
     let seed = a.num("--seed", 1);
     let mut rng = Rng::new(seed ^ 0xC01);
     let mut case = a.num("--first-case", 0);
@@ -274,6 +275,29 @@ fn main() {
             }
         }
     }
+    // trailing garbage runs around the minimal message sizes (8 serial, 20 storage; +-1, 2x-1, 2x, 2x+1) behind 0, 1, 2, 5 messages
+    if a.num("--tails", 0) > 0 {
+        for serial in [false, true] {
+            for k in [0usize, 1, 2, 5] {
+                for tlen in [7usize, 8, 9, 15, 16, 17, 19, 20, 21, 35, 36, 39, 40, 41] {
+                    for style in 0..2u64 {
+                        for reader in 0..4u64 {
+                            let mut s = Stream { serial, segs: vec![] };
+                            for _ in 0..k {
+                                s.segs.push(small_msg(&mut rng, serial));
+                            }
+                            s.segs.push(Seg::G(if style == 0 { rng.bytes(tlen) } else { rand_garbage(&mut rng, tlen) }));
+                            sanitize(&mut s, &mut rng);
+                            st.tail_grid += 1;
+                            let start = if (tlen + reader as usize) % 2 == 0 { 0 } else { rng.below(1 << 30) as u32 };
+                            run_case(&mut t, &mut st, case, &s, start, reader, "tail-grid");
+                            case += 1;
+                        }
+                    }
+                }
+            }
+        }
+    }
     for _ in 0..a.num("--random", 0) {
         let s = random_stream(&mut rng, a.num("--max-msgs", 60));
         let start = if rng.chance(1, 2) { 0 } else { rng.below(1 << 30) as u32 };
@@ -316,7 +340,7 @@ fn main() {
     println!("{}", json!({"cases": case, "lines": t.lines, "scenarios": n_scn, "model_predicted_kf": predicted_kf, "msgs": st.msgs,
         "shapes_storage": shapes_storage, "shapes_serial": shapes_serial, "garbage_before": st.garb_before, "garbage_between": st.garb_between,
         "garbage_after": st.garb_after, "trailing_short_run": st.trailing_short, "max_payload_msgs": st.max_payload, "empty_payload_msgs": st.empty_payload,
-        "serial_cases": st.serial_cases, "storage_cases": st.storage_cases, "files": files,
+        "serial_cases": st.serial_cases, "storage_cases": st.storage_cases, "files": files, "tail_grid_cases": st.tail_grid,
         "long_garbage": {"leading_storage": st.long_leading[0], "leading_serial": st.long_leading[1], "between_storage": st.long_between[0],
             "between_serial": st.long_between[1], "before_last_storage": st.long_before_last[0], "before_last_serial": st.long_before_last[1],
             "trailing_storage": st.long_trailing[0], "trailing_serial": st.long_trailing[1], "via_slice": st.long_by_reader[0], "via_cursor": st.long_by_reader[1],
